@@ -3,6 +3,7 @@ from props import TB_COMMON
 HDR = "From TeraV Require Import Model.Value Model.Pratt Corr.CorrC02.\nOpen Scope nat_scope."
 
 CFG = {
+    "escalate": False,  # thorough generators take far longer than the second-pass budget (DESIGN 15.1)
     "bin": "c02",
     "corr": ["CorrC02", "CorrC02Eval"],
     "harness_timeout": 1500,
